@@ -6,6 +6,7 @@ import CCVerif.Lemmas.RangeExactPos
 import CCVerif.Lemmas.ParseRender
 import CCVerif.Lemmas.ParseShaped
 import CCVerif.Lemmas.ParserWfLex
+import CCVerif.Lemmas.IdentsRelex
 /-!
 # C06 — the parser builds the grammar's tree; node ranges delimit their source text
 
@@ -1139,6 +1140,69 @@ theorem lex_identifier_spelling (syn : Syn) (text : List Nat) (ts : List RawTok)
 example : (lexRaw .math (units "X01∪F12[ξ_1, R01]")).map (fun ts => ts.map fun t => (t.id, t.text)) =
     some [(.ID_GLOBAL, units "X01"), (.UNION, units "∪"), (.ID_FUNCTION, units "F12"), (.PUNC_SL, units "["),
       (.ID_LOCAL, units "ξ_1"), (.PUNC_COMMA, units ","), (.ID_RADICAL, units "R01"), (.PUNC_SR, units "]"), (.END, [])] := by
+  decide +kernel
+
+/-- **lex_identifiers_relex** (`identsRelex_all`, prover-C06g): for both syntaxes and EVERY text, the text of every
+identifier token of the lexer's stream, lexed ALONE with the MATH lexer, is exactly one token of the same kind — the
+hypothesis `hr` of `parse_gives_Wf_partial` always holds. The token's text is the slice the winning rule matched;
+no pattern of the tables looks beyond its match (`IdentsRelex.matchPat_take`, one truncation lemma per pattern shape),
+so every rule matches the slice as it matched the text and the same rule wins, at full length. For an ASCII token
+the slice is made of ASCII letters, digits and `_` and does not start with `B`, and the rules that can match such a
+text are the same list, in the same order, in both tables (`IdentsRelex.idRules_same`: `pr… Pr… Fi… card bool red
+debool D R I Z {number} F… P… R… {global_id} {local_id} .`) — no identifier of the ASCII lexer is a keyword of the
+MATH lexer. -/
+theorem lex_identifiers_relex (syn : Syn) (text : List Nat) (ts : List LTok) (h : lex syn text = some ts) :
+    ParserWf.IdentsRelex ts :=
+  IdentsRelex.identsRelex_all syn text ts h
+
+/-- … at one position: the slice the winning rule matched when it is an identifier rule -/
+theorem identifier_slice_relexes (syn : Syn) (c : Nat) (r : List Nat) (n : Nat) (t : Tok)
+    (hid : IdentsRelex.isIdTok t = true)
+    (hb : bestRule syn (c :: r) (rulesOf syn) none = some (n + 1, .tok t)) :
+    Wf.lexesAs t (unitsToString ((c :: r).take (n + 1))) = true :=
+  IdentsRelex.best_relex syn c r n t hid hb
+
+/-- the spelling alone does not decide the kind (so the statement has to be about texts that WERE lexed as an
+identifier): `red`, `card`, `pr1` have the spelling of a local, `D`, `Z`, `Pr1`, `F1` that of a global, and are
+lexed (both syntaxes) as keywords / as a term function; `reda`, `card1`, `pr1a`, `Da`, `Pr1x` are identifiers -/
+example : ∀ syn ∈ [Syn.math, .ascii],
+    (["red", "card", "pr1"].all fun s => ParseShaped.spelledAs syn .ID_LOCAL (units s)) = true ∧
+    (["D", "Z", "Pr1", "F1"].all fun s => ParseShaped.spelledAs syn .ID_GLOBAL (units s)) = true ∧
+    ["red", "card", "pr1", "D", "Z", "Pr1", "F1"].map (fun s => lexKinds syn (units s)) =
+      [some [.REDUCE], some [.CARD], some [.SMALLPR], some [.DECLARATIVE], some [.LIT_INTSET], some [.BIGPR],
+        some [.ID_FUNCTION]] ∧
+    ["reda", "card1", "pr1a", "Da", "Pr1x"].map (fun s => lexKinds syn (units s)) =
+      [some [.ID_LOCAL], some [.ID_LOCAL], some [.ID_LOCAL], some [.ID_GLOBAL], some [.ID_GLOBAL]] := by
+  decide +kernel
+
+/-- **parse_gives_Wf** (= `parse_gives_Wf_statement`, no hypothesis left): for BOTH syntaxes and EVERY text, the tree
+`parse` returns satisfies the executable grammar predicate `Wf.wfAst` (`Model/WfAst.lean`: exact arities, set / logic /
+declaration positions, call heads, `:∈` / `:=` only directly below an imperative expression, payload per leaf kind —
+for an identifier leaf: its text lexes alone (MATH) as one token of its kind), and `Wf.wf .ND` — the first half of
+the carrier `defShaped` of C08 / C11 / C12 / C13 — when its root is not a global declaration. No side condition for
+ASCII texts either. -/
+theorem parse_gives_Wf : parse_gives_Wf_statement := fun syn text t h =>
+  parse_gives_Wf_partial syn text t h (lex_identifiers_relex syn text)
+
+/-- non-vacuity: texts of both syntaxes with identifiers that start like keywords parse -/
+example : (parse .ascii (units "\\A reda \\in Pr1x*Da pr1a \\eq card1")).isSome = true ∧
+    (parse .math (units "∀reda∈Pr1x×Da pr1a=card1 & ξ_1∈F1[R1, Zα]")).isSome = true := by
+  decide +kernel
+
+/-- **parse_gives_defShaped_exact**: a parsed definition (root not a global declaration) is on the carrier
+`SchemaGen.defShaped` of C08 / C11 / C12 / C13 exactly when the token-level conditions `Checker.shapeOK` hold — they
+fail exactly for a radical token spelled `R0…` (`parse_gives_defShaped_counterexample`); the grammar half `Wf.wf .ND`
+always holds (`parse_gives_Wf`). -/
+theorem parse_gives_defShaped_exact (syn : Syn) (text : List Nat) (t : Ast) (h : parse syn text = some t)
+    (h1 : t.id ≠ .PUNC_DEFINE) (h2 : t.id ≠ .PUNC_STRUCT) :
+    SchemaGen.defShaped (some t) = Checker.shapeOK t := by
+  show (Wf.wf .ND t && Checker.shapeOK t) = Checker.shapeOK t
+  rw [(parse_gives_Wf syn text t h).2 h1 h2]
+  rfl
+
+/-- non-vacuity: both values occur — `∀reda∈Pr1x×Da pr1a=card1 & ξ_1∈F1[R1, Zα]` is on the carrier, `X1∪R01` is not -/
+example : (parse .math (units "∀reda∈Pr1x×Da pr1a=card1 & ξ_1∈F1[R1, Zα]")).map (fun t => SchemaGen.defShaped (some t)) = some true ∧
+    (parse .math (units "X1∪R01")).map (fun t => SchemaGen.defShaped (some t)) = some false := by
   decide +kernel
 
 end CCVerif.C06
